@@ -683,3 +683,50 @@ pub fn check_c13_async(case: &Case, plan: &AsyncPlan, order: (usize, u64, u32), 
     }
     acc.mark_nontrivial(case_hash(case));
 }
+
+// ---------------------------------------------------------------------------
+// C07 under every completion order (union members must be tried in their listed order
+// whatever order their candidate lists arrive in)
+// ---------------------------------------------------------------------------
+
+pub fn check_c07_async(case: &Case, plan: &AsyncPlan, order: (usize, u64, u32), acc: &mut Acc) {
+    if !case.p.soft.is_empty() {
+        return;
+    }
+    let sem = Sem::new(&case.u, &case.p);
+    let Some(expect) = sem.conflict_free(&[]) else {
+        return;
+    };
+    acc.count("premise_holds");
+    acc.mark_nontrivial(case_hash(case));
+    let mut distinct_logs: HashSet<u64> = HashSet::new();
+    explore_adaptive(plan, acc, |prefix, acc| {
+        let cfg = async_cfg(plan, prefix);
+        let res = run_case(&case.u, &case.p, &cfg);
+        acc.evaluations += 1;
+        distinct_logs.insert(log_hash(&res.log));
+        if let Outcome::Ok(sol) = &res.outcome {
+            let got: BTreeSet<Id> = sol.iter().copied().collect();
+            if got != expect {
+                acc.violation(viol(
+                    "C07",
+                    "not-first-choice:schedule",
+                    format!(
+                        "preferred candidates are compatible {:?} but under this completion order solve returned {:?}",
+                        expect.iter().map(|&x| case.u.solv_label(x)).collect::<Vec<_>>(),
+                        sol.iter().map(|&x| case.u.solv_label(x)).collect::<Vec<_>>()
+                    ),
+                    case,
+                    json!({"schedule": res.trace.iter().map(|t| t.0).collect::<Vec<_>>(), "plan": format!("{plan:?}"), "log": format!("{:?}", res.log)}),
+                    order,
+                ));
+            }
+        } else if matches!(res.outcome, Outcome::Unsat) {
+            acc.violation(viol("C07", "unsat-on-conflict-free:schedule", "Unsolvable under this completion order".into(), case, json!({"schedule": res.trace.iter().map(|t| t.0).collect::<Vec<_>>()}), order));
+        }
+        res.trace.clone()
+    });
+    if distinct_logs.len() >= 2 {
+        acc.count("instances_with_2+_distinct_call_orders");
+    }
+}
